@@ -241,6 +241,13 @@ func genTable(t *rapid.T, small bool) []Entry {
 			es = append(es, e)
 		}
 	}
+	// the zero-length key (the writer and the engine accept it; it sorts first)
+	if rapid.IntRange(0, 7).Draw(t, "emptykey") == 0 {
+		e := Entry{T: "", S: seqGen.Draw(t, "seq")}
+		e.V = tiny.Draw(t, "vlen")
+		applyKind(&e, drawKind(t, mix))
+		es = append(es, e)
+	}
 	es = sortDedup(es)
 	// first / last positions: force a kind now and then
 	applyKind(&es[0], rapid.SampledFrom([]string{"keep", "keep", "tomb", "empty"}).Draw(t, "firstkind"))
